@@ -41,6 +41,7 @@ pub fn lookup(id: &str) -> Option<Monitor> {
     "C18" => Some(c18::monitor()),
     "C19" => Some(c19::monitor()),
     "XBSD" => Some(xbsd::monitor()),
+    "XC2V" => Some(xbsd::monitor_c2v()),
     "SELFTEST" => Some(selftest::monitor()),
     _ => None,
   }
